@@ -173,6 +173,28 @@ type c19fService struct {
 	// requests it failed during the current call.
 	failLeft  int
 	failedNow int
+	// rng chooses the letter case of the hex strings of the answers.
+	rng *rand.Rand
+}
+
+// c19fSpell writes a hex string in lower, upper or mixed case.
+func c19fSpell(rng *rand.Rand, h string) string {
+	if rng == nil {
+		return h
+	}
+	switch rng.Intn(3) {
+	case 0:
+		return h
+	case 1:
+		return strings.ToUpper(h)
+	}
+	b := []byte(h)
+	for i, c := range b {
+		if c >= 'a' && c <= 'f' && rng.Intn(2) == 0 {
+			b[i] = c - 'a' + 'A'
+		}
+	}
+	return string(b)
 }
 
 func c19fNewService(suffix string, names []string) *c19fService {
@@ -214,7 +236,9 @@ func (u *c19fService) Exchange(req *dns.Msg) (*dns.Msg, error) {
 			if rest != "" {
 				for _, l := range strings.Split(rest, ".") {
 					if len(l) == 4 && c19fIsHex(l) {
-						strs = append(strs, u.by[l]...)
+						for _, h := range u.by[l] {
+							strs = append(strs, c19fSpell(u.rng, h))
+						}
 					}
 				}
 			}
@@ -371,6 +395,8 @@ func TestVerifC19Filter(t *testing.T) {
 		sort.Strings(candPC)
 		sb := c19fNewService("sb.dns.adguard.com.", candSB)
 		pc := c19fNewService("pc.dns.adguard.com.", candPC)
+		sb.rng = rand.New(rand.NewSource(rng.Int63()))
+		pc.rng = rand.New(rand.NewSource(rng.Int63()))
 		// Ample caches only: small ones are the business of the part "lookup".
 		sizes := []uint{0, 1 << 16, 1 << 20}
 		conf := &Config{
